@@ -36,6 +36,18 @@ static void vh_ha_canary(size_t cap) { memset(VH_HA_BUF + cap, 0xC5, 64); }
 static int vh_ha_guard(size_t cap) { size_t i; for (i = 0; i < 64; i++) if (VH_HA_BUF[cap + i] != 0xC5) return 0; return 1; }
 
 /* one-shot aggregation into a buffer of "buflen" bytes (pre-filled with "fill") */
+/* "nest": k > 0 = the aggregation runs on a context whose SHA-256 compression function is a caller's (correct) function that, at its
+ * k-th invocation, itself aggregates the first two signatures on another context -- the deterministic single-threaded replay of two
+ * aggregations in flight at once (re-entrancy; results are a function of the arguments only) */
+static secp256k1_context *VH_HA_NCTX = NULL; static long VH_HA_NCOUNT = 0, VH_HA_NAT = 0; static int VH_HA_NIN = 0; static size_t VH_HA_NN = 0;
+static void vh_ha_nest_fn(uint32_t *st, const unsigned char *blocks, size_t nb) {
+    VH_HA_NCOUNT++;
+    if (VH_HA_NCOUNT == VH_HA_NAT && !VH_HA_NIN && VH_HA_NN >= 2) {
+        unsigned char tmp[96]; size_t tl = sizeof(tmp);
+        VH_HA_NIN = 1; (void)secp256k1_schnorrsig_aggregate(CTX, tmp, &tl, VH_HA_PK, VH_HA_MSG, VH_HA_SIG, 2); VH_HA_NIN = 0;
+    }
+    secp256k1_sha256_transform(st, blocks, nb);
+}
 static void op_HalfAggAggregate(const jv *in, jout *out) {
     size_t n, ns, len; int pret, ret; long buflen = (long)jv_int(in, "buflen", 0); long fill = (long)jv_int(in, "fill", 0xAA);
     pret = vh_ha_load(in, &n); ns = vh_ha_load_sigs(in);
@@ -44,6 +56,13 @@ static void op_HalfAggAggregate(const jv *in, jout *out) {
     if (!pret) return;
     memset(VH_HA_BUF, (int)fill, (size_t)buflen); vh_ha_canary((size_t)buflen);
     len = (size_t)buflen;
+    if (jv_int(in, "nest", 0) > 0) {
+        if (!VH_HA_NCTX) { VH_HA_NCTX = secp256k1_context_create(SECP256K1_CONTEXT_NONE); secp256k1_context_set_illegal_callback(VH_HA_NCTX, vh_illegal_cb, NULL);
+                           secp256k1_context_set_error_callback(VH_HA_NCTX, vh_error_cb, NULL); secp256k1_context_set_sha256_compression(VH_HA_NCTX, vh_ha_nest_fn); }
+        VH_HA_NCOUNT = 0; VH_HA_NAT = (long)jv_int(in, "nest", 0); VH_HA_NN = n;
+        ret = secp256k1_schnorrsig_aggregate(VH_HA_NCTX, VH_HA_BUF, &len, n ? VH_HA_PK : NULL, n ? VH_HA_MSG : NULL, n ? VH_HA_SIG : NULL, n);
+        VH_HA_NAT = 0;
+    } else
     ret = secp256k1_schnorrsig_aggregate(CTX, VH_HA_BUF, &len, n ? VH_HA_PK : NULL, n ? VH_HA_MSG : NULL, n ? VH_HA_SIG : NULL, n);
     jo_int(out, "ret", ret); jo_int(out, "guard", vh_ha_guard((size_t)buflen));
     jo_int(out, "lenout", (long long)len);
